@@ -238,7 +238,17 @@ type Inst struct {
 	// NoWait: the next driver actions are issued without waiting for quiescence in between; they are
 	// recorded as `opnw` so that the driver compares observations only at the end of the batch.
 	NoWait bool
+	// the LAGGING subscriber (LagSubscriber): a second subscription with a large buffer that only keeps the trace VALUES
+	// and looks at them when the run is over — what a slow or buffered subscriber sees. traceLines: the prompt recorder's
+	// renderings of the traces alone (no driver actions, no notes), in order.
+	lagSub     chan tracing.ITrace
+	lagged     []tracing.ITrace
+	lagDone    chan struct{}
+	traceLines []string
 }
+
+// LagSubscriber: instances created while it is set carry a lagging subscriber (see Inst.LagDiff)
+var LagSubscriber bool
 
 func nodeID(n any) string {
 	if be, ok := n.(schema.BaseElementInterface); ok && be != nil {
@@ -427,16 +437,59 @@ func NewInst(defs *schema.Definitions, vars map[string]any, opts ...bpmn.Option)
 	}
 	in.Proc = proc
 	in.sub = proc.Tracer().SubscribeChannel(make(chan tracing.ITrace, 1<<14))
+	if LagSubscriber {
+		in.lagSub = proc.Tracer().SubscribeChannel(make(chan tracing.ITrace, 1<<14))
+		in.lagDone = make(chan struct{})
+		go func() {
+			defer close(in.lagDone)
+			for t := range in.lagSub {
+				in.mu.Lock()
+				in.lagged = append(in.lagged, t) // the VALUE is kept; nothing of it is read now
+				in.mu.Unlock()
+			}
+		}()
+	}
 	go func() {
 		defer close(in.recDone)
 		for t := range in.sub {
 			in.mu.Lock()
-			in.lines = append(in.lines, "obs "+in.canon(t))
+			l := "obs " + in.canon(t)
+			in.lines = append(in.lines, l)
+			if in.lagSub != nil {
+				in.traceLines = append(in.traceLines, l)
+			}
 			in.ntraces++
 			in.mu.Unlock()
 		}
 	}()
 	return in, nil
+}
+
+// LagDiff renders what the lagging subscriber holds — now, after the run — and compares it with what the prompt recorder
+// rendered when each trace arrived: n = traces compared, at = index of the first difference (-1: none).
+func (in *Inst) LagDiff() (n, at int, prompt, lagged string) {
+	in.mu.Lock()
+	defer in.mu.Unlock()
+	shadow := &Inst{occ: map[string]int{}, flowNo: map[string]int{}}
+	n = len(in.traceLines)
+	if len(in.lagged) < n {
+		n = len(in.lagged)
+	}
+	for i := 0; i < n; i++ {
+		l := "obs " + shadow.canon(in.lagged[i])
+		// (whether a task's context is done is a fact about the moment of reading, not about the trace)
+		if stripCtxDone(l) != stripCtxDone(in.traceLines[i]) {
+			return n, i, in.traceLines[i], l
+		}
+	}
+	return n, -1, "", ""
+}
+
+func stripCtxDone(l string) string {
+	if i := strings.Index(l, " ctxdone="); i >= 0 {
+		return l[:i]
+	}
+	return l
 }
 
 // Op records a driver action in the history at the current position.
